@@ -32,6 +32,17 @@ CLAIMED = {
          "Trusted: watchdog expiry is a hang only when it repeats on a solitary re-run.",
          "DESIGN.md 5/C12"),
 
+ "C18": ("HTTPSIM", "exploration",
+         "property-based testing of the real v2 router over a recording fake backend with generated failure patterns; positional reference model of results, executed set and status",
+         "Generated bulk bodies (all actions, unknown actions, per-element keys, failure patterns, flag values) are served by the real router; the backend calls and the response must match a positional model derived from the property statement.",
+         "Trusted: the fake backend (answers from the generated pattern); error-code expectations are limited to the mappings visible in the handler.",
+         "DESIGN.md 5/C18"),
+ "C19": ("HTTPSIM", "exploration",
+         "property-based / differential testing of the real top-level router in read-only mode: generated requests over every walked route, write-call counter oracle, read-write twin for non-triviality",
+         "Requests over every registered route x methods x bodies x headers x queries must cause zero write calls in read-only mode; the read-write twin shows which of them are real writes.",
+         "Trusted: the recording fake backend; chi.Walk lists every registered route.",
+         "DESIGN.md 5/C19"),
+
  "C02": ("ENGINE-SIM", "exploration",
          "stateful property-based testing with a harness-owned scheduler (rapid + testing/synctest); invariant over the persisted history (independent fold, per-debit floor)",
          "Generated sets of concurrent creates/reverts run on the real Commander/locker/batcher under generated interleavings; the persisted log is folded independently and every debit must respect the balance at its log position. Exploration: many histories x schedules, no exhaustiveness.",
@@ -113,6 +124,7 @@ def main():
     open("MANIFEST.json", "a").write("\n")
 
 ENGINES = [
+ {"name": "HTTPSIM", "path": "harness/httpsim", "serves_properties": ["C18", "C19"], "kind_free_text": "real chi routers over a recording fake backend, served with httptest"},
  {"name": "NUMGEN", "path": "harness/numgen", "serves_properties": ["C01", "C03", "C08", "C12"], "kind_free_text": "Numscript AST, typed and loose generators, printer, reference interpreter"},
  {"name": "ENGINE-SIM", "path": "harness/enginesim", "serves_properties": ["C02", "C05", "C06", "C07", "C10", "C11", "C14", "C16"], "kind_free_text": "deterministic schedule/crash/fault simulation of command.Commander in a synctest bubble + history oracles"},
  {"name": "LOGRT", "path": "harness/checks/c13_test.go", "serves_properties": ["C13"], "kind_free_text": "rapid generators + round-trip / metamorphic oracles"},
